@@ -561,7 +561,8 @@ pub fn execute(set: &dyn DynSet, xi: &[u8; 32], xi_other: &[u8; 32], ops: &[Op],
                     Op::DeliverLongCtx { t, .. } => (*t, "the same endpoint with an over-long context"),
                     _ => unreachable!(),
                 };
-                let tu = &tuples[t % tuples.len()];
+                // index 999_999 and above means "the tuple signed last"
+                let tu = if t >= 999_999 { &tuples[tuples.len() - 1] } else { &tuples[t % tuples.len()] };
                 let (mut msg, mut ctx, mut mode) = (tu.msg.clone(), tu.ctx.clone(), tu.mode);
                 match op {
                     Op::DeliverAs { mode: m2, .. } => {
@@ -576,7 +577,13 @@ pub fn execute(set: &dyn DynSet, xi: &[u8; 32], xi_other: &[u8; 32], ops: &[Op],
                         // splits beyond 255 give an over-long context: the aliasing case of the length byte
                         // split codes >= 10000 ask for the aliasing boundary |ctx| + 256*(code-9999)
                         // ... and code 20000 for |ctx| + 65536 (16-bit aliasing; needs a message over 64 KiB)
-                        let k = if *split >= 20_000 { tu.ctx.len() + 65_536 } else if *split >= 10_000 { tu.ctx.len() + 256 * (split - 9_999) } else { split % (cat.len().min(600) + 1) };
+                        // (for a tuple whose context is already over-long the aliasing boundary lies below: |ctx| - 256*j)
+                        let step = if *split >= 20_000 { 65_536 } else if *split >= 10_000 { 256 * (split - 9_999) } else { 0 };
+                        let k = if step > 0 {
+                            if tu.ctx.len() + step <= cat.len() && tu.ctx.len() <= 255 { tu.ctx.len() + step } else if tu.ctx.len() >= step { tu.ctx.len() - step } else { continue }
+                        } else {
+                            split % (cat.len().min(600) + 1)
+                        };
                         if k == tu.ctx.len() || k > cat.len() {
                             continue;
                         }
@@ -778,7 +785,9 @@ pub fn gen_history(p: &mut Prng, set: &dyn DynSet) -> Vec<Op> {
             4 if p.chance(1, 2) => {
                 let cl = *p.pick(&[256usize, 257, 300, 511, 512, 1000, 65_791]);
                 let ml = *p.pick(&MSG_LENS[..8]);
-                Op::Sign { sk: p.usize_below(8), msg: p.bytes(ml), ctx: p.bytes(cl), mode: *p.pick(&MODES), rnd: p.array32(), via_os: p.chance(1, 3) }
+                ops.push(Op::Sign { sk: p.usize_below(8), msg: p.bytes(ml), ctx: p.bytes(cl), mode: *p.pick(&MODES), rnd: p.array32(), via_os: p.chance(1, 3) });
+                // should the signer have accepted it, the tuple is re-framed at once at the aliasing boundary
+                Op::DeliverReframed { t: 999_999, split: if cl >= 65_536 { 20_000 } else { 10_000 + (cl / 256).saturating_sub(1).min(1) } }
             }
             0 => Op::DeliverAs { t: p.usize_below(8), mode: *p.pick(&MODES) },
             1 => Op::DeliverReframed { t: p.usize_below(8), split: match p.below(5) { 0 => *p.pick(&[256usize, 257, 300, 512]), 1 => p.usize_below(4), 2 => *p.pick(&[10_000usize, 10_001, 20_000]), _ => p.usize_below(256) } },
